@@ -236,6 +236,10 @@ pub struct Exec {
     pub state_changes: usize,
     pub verbose: bool,
     pub trace: Vec<String>,
+    /// property the current check decides ("" = stop at any violation). Violations that do not
+    /// concern it and leave the history usable are counted and the history continues, so that
+    /// their consequences for the target property are still observed.
+    pub target: String,
 }
 
 enum Res {
@@ -259,6 +263,16 @@ impl Exec {
             key: key.into(),
             detail: detail.into(),
             step: self.step,
+        }
+    }
+
+    /// A violation that leaves the history usable: fatal only if it concerns the target property.
+    fn soft(&mut self, v: Violation) -> Result<(), Violation> {
+        if self.target.is_empty() || v.has(&self.target) {
+            Err(v)
+        } else {
+            bump(&mut self.stats, &format!("other_property_violation_passed_over:{}", v.clause));
+            Ok(())
         }
     }
 
@@ -354,7 +368,7 @@ impl Exec {
                 if let Some(exp) = &info.expected {
                     if dec.msg != *exp {
                         let d = exp.diff(&dec.msg, false).unwrap_or_default();
-                        return Err(self.viol(
+                        let v = self.viol(
                             &["C09"],
                             "effect-mismatch",
                             &info.name,
@@ -363,7 +377,8 @@ impl Exec {
                                 "{} returned Ok but the decoded message is not the stated effect (expected vs actual): {}",
                                 info.name, d
                             ),
-                        ));
+                        );
+                        self.soft(v)?;
                     }
                 }
                 if dec.msg != self.model || info.mutator {
@@ -434,16 +449,24 @@ impl Exec {
         let e = observe(&fresh);
         if let Some(d) = first_diff(&o, &e) {
             let key = first_diff_key(&o, &e);
-            return Err(self.viol(
-                view_props,
+            // When what differs is *content* seen through the object (records, EDNS options,
+            // header fields) after a specified mutator, the mutation also did not have exactly
+            // its stated effect as far as a user of the object can tell (C09).
+            let mut props: Vec<&'static str> = view_props.to_vec();
+            if ok && info.mutator && content_differs(&o, &e) {
+                props.push("C09");
+            }
+            let v = self.viol(
+                &props,
                 "view-mismatch",
                 &info.name,
                 format!("{}{}", key, info.tags),
                 format!("after a {} {}: {}", what, info.name, d),
-            ));
+            );
+            self.soft(v)?;
         }
         if !pp.maybe_compressed && dec.layout.has_pointer {
-            return Err(self.viol(
+            let v = self.viol(
                 view_props,
                 "pointer-flag-unsound",
                 &info.name,
@@ -452,7 +475,8 @@ impl Exec {
                     "after a {} {} the object claims its bytes are pointer-free but they contain a compression pointer",
                     what, info.name
                 ),
-            ));
+            );
+            self.soft(v)?;
         }
         // event log
         let mut h = Fnv::new();
@@ -1189,7 +1213,9 @@ impl Exec {
                             if let (Res::Ok, Some(k)) = (&res, idx) {
                                 cur_mutated = true;
                                 dirty_here = true;
-                                self.coherence(c, kind, k, &opname, &tags)?;
+                                if let Err(v) = self.coherence(c, kind, k, &opname, &tags) {
+                                    self.soft(v)?;
+                                }
                             }
                         }
                     }
@@ -1227,7 +1253,9 @@ impl Exec {
                             self.check_after(it.parsed_packet(), &info, &Res::Ok)?;
                             cur_mutated = true;
                             let c = cur.as_ref().unwrap();
-                            self.coherence(c, kind, k, &opname, &tags)?;
+                            if let Err(v) = self.coherence(c, kind, k, &opname, &tags) {
+                                    self.soft(v)?;
+                                }
                         }
                     }
                 }
@@ -1298,7 +1326,9 @@ impl Exec {
                                 cur_mutated = true;
                             }
                             let c = cur.as_ref().unwrap();
-                            self.coherence(c, kind, k, &opname, &tags)?;
+                            if let Err(v) = self.coherence(c, kind, k, &opname, &tags) {
+                                    self.soft(v)?;
+                                }
                         }
                     }
                 }
@@ -1376,14 +1406,18 @@ impl Exec {
                                 cur_mutated = true;
                                 dirty_here = true;
                                 let c = cur.as_ref().unwrap();
-                                self.coherence(c, kind, k, &opname, &tags)?;
+                                if let Err(v) = self.coherence(c, kind, k, &opname, &tags) {
+                                    self.soft(v)?;
+                                }
                             } else if matches!(res, Res::Ok) && tomb {
                                 // allowed only if nothing changed (checked above through `expected`)
                             } else if let Some(k) = idx {
                                 // a failed set_raw_name may have decompressed the packet in place;
                                 // the cursor must still designate its record
                                 let c = cur.as_ref().unwrap();
-                                self.coherence_after_err(c, kind, k, &opname, &tags)?;
+                                if let Err(v) = self.coherence_after_err(c, kind, k, &opname, &tags) {
+                                    self.soft(v)?;
+                                }
                             }
                         }
                     }
@@ -1648,7 +1682,7 @@ fn make_init(init: &Init) -> Result<ParsedPacket, String> {
 
 /// Runs one history. `src` supplies operations (generator or script); the executed operations are
 /// recorded explicitly so that the outcome can be replayed from the returned scenario.
-pub fn execute(init: &Init, src: &mut dyn Source, verbose: bool) -> Outcome {
+pub fn execute(init: &Init, src: &mut dyn Source, verbose: bool, target: &str) -> Outcome {
     let mut executed = Scenario {
         init: init.clone(),
         ops: Vec::new(),
@@ -1696,6 +1730,7 @@ pub fn execute(init: &Init, src: &mut dyn Source, verbose: bool) -> Outcome {
         state_changes: 0,
         verbose,
         trace: Vec::new(),
+        target: target.to_string(),
     };
     ex.assign_uids();
     // Self-check of the initial state: the object must already agree with the recogniser's
